@@ -255,6 +255,12 @@ inline void make_case(Case<T>& c, const vf::Args& a, uint64_t idx, const char* t
     c.B[2][i] = L(static_cast<T>((i == ek) ? amax : 0));   // a unit vector
   }
   c.ref = analyse(c.A);
+  // conditioning-defined stratum: whatever the generator, a nonsingular matrix with kappa_F >= 500 is filed under
+  // "illcond", so that a finding that depends on conditioning has one key (not one per generator that can reach it)
+  if (!is_singular(c.st) && c.ref.invertible && c.ref.kappa >= 500.0L) {
+    c.S = "illcond";
+    if (a.get("--byn") == "1") { std::snprintf(c.sbuf, sizeof c.sbuf, "illcond/n=%02d", c.n); c.S = c.sbuf; }
+  }
   c.must_report = is_singular(c.st) && !c.ref.invertible && c.ref.exact_zero_pivot;
   c.judged = !is_singular(c.st) && c.ref.invertible && c.ref.kappa * c.eps <= 1e-2L;
 }
